@@ -10,8 +10,8 @@ import (
 	replication_proto "github.com/KevoDB/kevo/proto/kevo/replication"
 )
 
-// VerifApplyStep: one ApplyEntries call from an arbitrary applier state with an arbitrary batch.
-func VerifApplyStep() {
+// VerifC13_ApplyStepInductive: one ApplyEntries call from an arbitrary applier state with an arbitrary batch.
+func VerifC13_ApplyStepInductive() {
 	start := vsym.Uint64("start")
 	vsym.Assume(start < 1<<62)
 	a := NewWALBatchApplier(start)
